@@ -182,6 +182,12 @@ func (g *Gen) trans(e *Expr, env *TEnv) tvT {
 	case "slice":
 		s := g.trans(e.Args[0], env)
 		if s.gt != nil {
+			// an array FIELD (msg.Hash) denotes its location: slicing it gives the slice over that array
+			if pt, ok := s.gt.Underlying().(*types.Pointer); ok {
+				if at, ok := pt.Elem().Underlying().(*types.Array); ok {
+					s = tvT{t: fmt.Sprintf("(mk-slice %s %s %s %s)", s.t, g.idx(0), g.idx(at.Len()), g.idx(at.Len())), gt: types.NewSlice(at.Elem())}
+				}
+			}
 			if at, ok := s.gt.Underlying().(*types.Array); ok {
 				if s.addr == "" {
 					g.fail("cannot slice array value without an address: %s : %s", e.Args[0].String(), s.t)
@@ -931,10 +937,26 @@ func (g *Gen) transCall(e *Expr, env *TEnv) tvT {
 	if !ok {
 		g.fail("unknown function %s in contract expression", name)
 	}
-	g.needSpec(sf)
 	if len(args) != len(sf.Params) {
 		g.fail("spec %s expects %d arguments", name, len(sf.Params))
 	}
+	if sf.Macro {
+		// expanded here, in the caller's state: parameters are bound to the translated arguments
+		if sf.Body == nil {
+			g.fail("macro %s has no body", name)
+		}
+		menv := &TEnv{g: g, vars: map[string]tvT{}, pkg: sf.Pkg, old: env.old, oldEntry: env.oldEntry, inOld: env.inOld, entryVars: env.entryVars,
+			freshLo: env.freshLo, freshHi: env.freshHi}
+		for i, a := range args {
+			v := g.trans(a, env)
+			if pt, _ := g.resolveType(sf.Params[i].Type, sf.Pkg); pt != nil && v.gt == nil {
+				v.gt = pt
+			}
+			menv.vars[sf.Params[i].Name] = v
+		}
+		return g.trans(sf.Body, menv)
+	}
+	g.needSpec(sf)
 	var as []string
 	for i, a := range args {
 		v := g.trans(a, env)
